@@ -3225,7 +3225,13 @@ class BSP:
         prop_lump.write(write_array(self.lump_layout['STATICPROPLEAF'], leaf_array))
 
         prop_lump.write(struct.pack('<i', len(props)))
+        has_sec_flags = version.is_lightmap or vers_num >= 10 or version is StaticPropVersion.V_LIGHTMAP_MESA
         for (leaf_off, model_ind), prop in zip(indexes, props):
+            if prop.flags.value_sec and not has_sec_flags:
+                raise ValueError(
+                    f'Static prop flags {prop.flags!r} cannot be stored in the {version.name} format, '
+                    'it only has the primary flags byte!'
+                )
             start = prop_lump.tell()
             prop_lump.write(struct.pack(
                 '<3f3fH',
